@@ -740,8 +740,75 @@ func (g *Gen) queryProgram(n int) {
 	}
 }
 
+// resumeProgram: one checkpointed feed in resume mode, stopped and restarted (live and dump runs) between batches of writes.
+func (g *Gen) resumeProgram(n int) {
+	g.colls = []string{"c0"}
+	g.keys = []string{"k0", "k1", "k2"}
+	g.profile = "nometa"
+	running := false
+	start := func(dump bool) {
+		l := Line{Op: "feed", Pos: []string{"fr", "c0"}, Args: [][2]string{{"bf", "resume"}, {"prefix", "cp"}}}
+		if dump {
+			l.add("dump", "1")
+		}
+		g.emit(l)
+		g.emit(Line{Op: "drain", Pos: []string{"fr"}})
+		running = !dump
+		g.rb("c0", "cp:fr")
+	}
+	for i := 0; i < n; i++ {
+		switch g.r.weighted([]int{70, 12, 10, 8}) {
+		case 0:
+			g.tick()
+			k := pick(g.r, g.keys)
+			g.oneOp("c0", k)
+			g.rb("c0", k)
+			if running {
+				g.emit(Line{Op: "drain", Pos: []string{"fr"}})
+			}
+		case 1:
+			if !running {
+				g.tick()
+				start(false)
+				g.stats["op:feed-resume-live"]++
+			}
+		case 2:
+			if running {
+				g.tick()
+				g.emit(Line{Op: "stopfeed", Pos: []string{"fr"}})
+				running = false
+				g.rb("c0", "cp:fr")
+				g.stats["op:stopfeed"]++
+			}
+		case 3:
+			if !running {
+				g.tick()
+				start(true)
+				g.stats["op:feed-resume-dump"]++
+			}
+		}
+	}
+	if running {
+		g.tick()
+		g.emit(Line{Op: "stopfeed", Pos: []string{"fr"}})
+		g.rb("c0", "cp:fr")
+	}
+	g.tick()
+	for _, k := range g.keys {
+		g.rb("c0", k)
+	}
+	start(true)
+	g.emit(Line{Op: "keys", Pos: []string{"c0"}})
+}
+
 // program generates one program of n operations under the generator's profile.
 func (g *Gen) program(n int) {
+	if g.profile == "resume" {
+		g.phys = 1 << 20
+		g.now = 1700000000
+		g.resumeProgram(n)
+		return
+	}
 	if g.profile == "query" {
 		g.phys = 1 << 20
 		g.now = 1700000000
